@@ -18,10 +18,26 @@ add(Contract("markdown_it.ruler.Ruler.getRules", params={"self": "obj:Ruler", "c
 
 POSR = [("pos-range", "0 <= state.pos and state.pos < state.posMax and state.posMax <= len(state.src)")]
 
+
+def _terminators():
+    """the terminator characters of the text rule, read from the real source (a change to the set changes the contracts)"""
+    from vf import src as S
+
+    return sorted(S.set_literal_codes(S.load_module("markdown_it.rules_inline.text"), "_TerminatorChars"))
+
+
+def TERM(e):
+    return "(" + " or ".join(f"{e} == {chr(c)!r}" for c in _terminators()) + ")"
+
+
+# the inline tokenizer is entered either on a whole string or - from link - on a label whose end is a ']': the text rule
+# (whose regex search is not limited to posMax) stays inside posMax only because of this
+POSMAX_TERM = ("posMax-on-a-terminator", "state.posMax == len(state.src) or " + TERM("state.src[state.posMax]"))
+
 # generic inline rule contract (DESIGN.md 3.4)
 add(Contract(
     "<inline_rule>", params={"state": "obj:StateInline", "silent": "bool"}, result="bool", assume_only=True,
-    requires=POSR,
+    requires=POSR + [POSMAX_TERM],
     modifies=["state.pos", "state.pending", "state.pendingLevel", "state.cache", "state.backticks", "state.backticksScanned", "state.delimiters", "state.linkLevel"],
     ensures=[("advance", "implies(result, old(state.pos) < state.pos and state.pos <= state.posMax)"),
              ("fail-pure", "implies(not result, state.pos == old(state.pos) and state.pending == old(state.pending))"),
@@ -59,7 +75,7 @@ add(Contract(
 
 add(Contract(
     PI + "tokenize", params={"self": "obj:ParserInline", "state": "obj:StateInline"}, props=["C01", "C20"],
-    requires=[("pos-range", "0 <= state.pos and state.pos <= state.posMax and state.posMax <= len(state.src)"), ("nest", "state.md.options.maxNesting >= 1")],
+    requires=[("pos-range", "0 <= state.pos and state.pos <= state.posMax and state.posMax <= len(state.src)"), ("nest", "state.md.options.maxNesting >= 1"), POSMAX_TERM],
     at=[("call:rule", "rule-under-nesting-cap", "state.level < state.md.options.maxNesting")],
     ensures=[("consumed", "state.pos >= state.posMax")],
     loops={0: {"types": {"ok": "bool", "rule": "none"}, "let": {"P": "state.pos"},
@@ -77,7 +93,7 @@ add(Contract(
 add(Contract(
     PI + "skipToken", params={"self": "obj:ParserInline", "state": "obj:StateInline"}, props=["C01", "C20"],
     modifies=["state.pos", "state.cache", "state.backticks", "state.backticksScanned", "state.delimiters", "state.linkLevel", "state.pendingLevel"],
-    requires=POSR + [("nest", "state.md.options.maxNesting >= 1"),
+    requires=POSR + [("nest", "state.md.options.maxNesting >= 1"), POSMAX_TERM,
                      ("cache-inv", "forall(p, 0, len(state.src) + 1, implies(p in state.cache, state.cache[p] > p))")],
     at=[("call:rule", "rule-under-nesting-cap", "state.level - 1 < state.md.options.maxNesting")],
     ensures=[("advance", "state.pos > old(state.pos)"),
